@@ -797,6 +797,32 @@ GENS = [2, 3, 5, 7, 11, 13, 17, 19, 23, 29, 31, 37, 41, 43, 47, 53, 59, 61, 67, 
         241, 251, 257, 263, 269, 271, 277, 281, 283, 293, 307, 311, 313, 317, 331, 337, 347, 349]
 
 
+def band_factors(rng, band, nf):
+    """nf primes (repetitions allowed: non-cyclic groups) below 2^31 whose product lies in [2^lo, 2^hi)"""
+    lo, hi = band
+    for _ in range(200):
+        bits = (lo + hi) / 2 / nf
+        fs = []
+        for _ in range(nf - 1):
+            b = min(30.9, max(2.0, bits + rng.uniform(-1.5, 1.5)))
+            fs.append(gen.prev_prime(int(2 ** b)))
+        if rng.randrange(3) == 0 and nf >= 3:
+            fs[1] = fs[0]
+        prod = 1
+        for f in fs:
+            prod *= f
+        target_lo, target_hi = 2 ** lo / prod, 2 ** hi / prod
+        if target_hi >= 1 << 31 or target_lo < 2:
+            continue
+        last = gen.prev_prime(int(rng.uniform(target_lo, target_hi)) + 1)
+        if last < 2:
+            continue
+        h = prod * last
+        if 2 ** lo <= h < 2 ** hi:
+            return fs + [last]
+    return None
+
+
 def rels_of(rows, gens_desc):
     """sparse relations (generator, exponent), generators ascending inside a row, for dense rows whose
     columns are the generators in decreasing order"""
@@ -849,6 +875,33 @@ def snf_cases(rng, scale):
             continue
         gens_desc = sorted(rng.sample(GENS, n), reverse=True)
         yield Case(f"snf_reduce {h} {lst(gens_desc)} {enc(rows)}", tag=str(h))
+    # class numbers around the switch between the i128 and the I256 arithmetic (submul_n: h < 2^63/N, other operations:
+    # h < 2^63), 12..16 generators of which most are redundant so that the 8-row blocked elimination runs with residues as
+    # large as h: bands (2^62.5, 2^63), [2^63, 2^64), just below 2^62, and (2^59.5, 2^60) = 2^63/8
+    for _ in range(4 * scale):
+        for band in ((62.5, 63.0), (63.0, 64.0), (61.5, 62.0), (59.6, 60.0), (60.0, 60.4)):
+            n = rng.choice([12, 13, 14, 16])
+            nf = rng.choice([2, 3, 3, 4])
+            fs = band_factors(rng, band, nf)
+            if fs is None:
+                continue
+            h = 1
+            for f in fs:
+                h *= f
+            diag = [1] * (n - len(fs)) + fs
+            rng.shuffle(diag)
+            B = udv(rng, n, diag, 6 * n, maxabs=max(fs) * 8)
+            rows = [r[:] for r in B]
+            for _ in range(rng.choice([0, 2, n])):
+                a, b = rng.choice(B), rng.choice(B)
+                k = rng.choice([1, -1, 2])
+                rows.append([x + k * y for x, y in zip(a, b)])
+            rng.shuffle(rows)
+            gens_desc = sorted(rng.sample(GENS, n), reverse=True)
+            yield Case(f"snf_reduce {h} {lst(gens_desc)} {enc(rows)}", tag=str(h))
+            if all(abs(x) < 1 << 31 for r in rows for x in r) and not any(all(r[j] == 0 for r in rows) for j in range(n)):
+                lo, hi = bracket(rng, h)
+                yield Case(f"im_snf {enc_sparse(rels_of(rows, gens_desc))} {f64bits(lo)} {f64bits(hi)}", k=False, tag=str(h))
     # the orphan-generator HACK: first generator huge, relation g0^2 = 1, det = 2h
     for _ in range(6 * scale):
         n = rng.choice([2, 3, 4, 6])
@@ -1175,8 +1228,10 @@ def group_of_diag(rows, h):
     return normal_form(ds)
 
 
-def snf_final_check(ans_state, h, want_group):
-    """ans_state = [gens, rows, q, removed]: diagonal, product of the diagonal = h, group as wanted"""
+def snf_final_check(ans_state, h, want_group, orig_rows=None, orig_gens=None):
+    """ans_state = [gens, rows, q, removed]: diagonal, product of the diagonal = h, group as wanted; with the
+    original relations: every removed generator's relation lies in the relation lattice, and the returned
+    transformation q maps the relations (after substituting the removed generators) into the diagonal lattice"""
     gens, rows, q, removed = ans_state
     rows = dec(rows)
     if any(len(r) != len(rows) for r in rows):
@@ -1192,6 +1247,51 @@ def snf_final_check(ans_state, h, want_group):
     g = normal_form([r[i] for i, r in enumerate(rows)])
     if g != want_group:
         return f"group {g} != quotient of the lattice {want_group}"
+    if orig_rows is None:
+        return None
+    fgens = unlst(gens)
+    rem = parse_removed(removed)
+    n = len(orig_gens)
+    pos = {p: i for i, p in enumerate(orig_gens)}
+    if sorted(fgens + [p for p, _ in rem]) != sorted(orig_gens):
+        return "generators are not partitioned into remaining and removed ones"
+    # 1. the relations of the removed generators are relations of the group
+    vs = []
+    for p_, rel in rem:
+        v = [0] * n
+        v[pos[p_]] = 1
+        for l, e in rel:
+            if l not in pos:
+                return f"removed relation of {p_} mentions an unknown generator {l}"
+            v[pos[l]] -= e
+        vs.append([x % h for x in v])
+    if vs and lattice_group(orig_rows + vs, n, h)[0] != lattice_group(orig_rows, n, h)[0]:
+        return "a relation recorded for a removed generator is not in the relation lattice"
+    # 2. substitute the removed generators (their relations only mention later generators)
+    fpos = {p: i for i, p in enumerate(fgens)}
+    k = len(fgens)
+    expr = {}
+    for p_, rel in reversed(rem):
+        w = [0] * k
+        for l, e in rel:
+            src = expr[l] if l in expr else [1 if i == fpos[l] else 0 for i in range(k)]
+            w = [(a + e * b) % h for a, b in zip(w, src)]
+        expr[p_] = w
+    Q = dec(q)
+    if k and (len(Q) != k or any(len(r) != k for r in Q)):
+        return "q has the wrong shape"
+    ds = [math.gcd(rows[i][i], h) for i in range(k)]
+    for v in orig_rows:
+        w = [0] * k
+        for gname, c in zip(orig_gens, v):
+            if c == 0:
+                continue
+            src = expr[gname] if gname in expr else [1 if i == fpos[gname] else 0 for i in range(k)]
+            w = [(a + c * b) % h for a, b in zip(w, src)]
+        t = [sum(w[i] * Q[i][j] for i in range(k)) % h for j in range(k)]
+        for j in range(k):
+            if t[j] % ds[j]:
+                return f"relation * q is not in the diagonal lattice (coordinate {j})"
     return None
 
 
@@ -1349,7 +1449,7 @@ def oracle(case, ans):
             return None
         if ans in BAD:
             return f"no value returned ({ans})"
-        return snf_final_check(ans.split(" "), h, grp)
+        return snf_final_check(ans.split(" "), h, grp, rows, unlst(a[1]))
     if op in ("im_snf", "im_snf_new"):
         rels = dec_sparse(a[0])
         gens = sorted({p for r in rels for p, _ in r})
@@ -1377,7 +1477,7 @@ def oracle(case, ans):
             if unlst(parts[1]) != gens[::-1]:
                 return "generators"
             return None if dec(parts[2]) == rows else "dense rows differ from the relations"
-        return snf_final_check(parts[1:], idx, grp)
+        return snf_final_check(parts[1:], idx, grp, rows, gens[::-1])
     if op == "im_sparse_norm":
         rows = dec_sparse(a[0])
         want = max([max(sum(e for _, e in r if e > 0), -sum(e for _, e in r if e < 0)) for r in rows] + [0])
